@@ -1,8 +1,10 @@
-(* NumbersDirect naming with cleanup, part 1: one run of the cleanup (cleanup_impl with direct = true) on a directory
+(* NumbersDirect naming with cleanup, part 1: one run of the cleanup (cleanup_impl with cur = Some (the file being
+   written), the repaired code: the loop skips that entry; here it is at position 0 and kept anyway) on a directory
    of the shape "plain files r<i> for mid <= i < L, archives r<i>.gz for lo <= i < mid" - there is no rCURRENT: the file
    that is being written is the newest numbered file r<L-1>, and it IS PART OF THE LISTING that the cleanup works on
-   (position 0, the listing is newest first).  What protects it:  cleanup_impl raises a log limit of 0 to 1 for the
-   direct namings, so position 0 is always in the "keep as it is" part.  Consequence for the limits:
+   (position 0, the listing is newest first).  What protects it:  the cleanup is told which file it is (cur) and skips it
+   (repaired code, CurrentSpared.v); cleanup_impl also raises a log limit of 0 to 1 for the direct namings, so position 0 is
+   always in the "keep as it is" part.  Consequence for the limits:
      KeepLogFiles(n)                  keeps n plain files IN TOTAL, the current one included: n - 1 closed files (n >= 1);
      KeepLogFiles(0)                  keeps the current file only;
      KeepCompressedFiles(m)           = KeepLogAndCompressedFiles(0, m) = KeepLogAndCompressedFiles(1, m):
@@ -29,14 +31,14 @@ Proof. unfold klimd. destruct k; cbn [klim]; congruence. Qed.
 Lemma klimd_klim k : klimd k = None <-> klim k = None.
 Proof. unfold klimd. destruct (klim k) as [[a b]|]; split; congruence. Qed.
 
-Lemma cleanup_impl_unfold_d c w k flt n m : klimd k = Some (n, m) -> quiet w ->
-  cleanup_impl c w k flt true =
+Lemma cleanup_impl_unfold_d c w k flt n m p : klimd k = Some (n, m) -> quiet w ->
+  cleanup_impl c w k flt (Some p) =
   match list_log_gz (woff w) (c_spec c) (fixed_of c w) (wfs w) flt with
   | None => (Panic, w)
   | Some files =>
     let '(ok0, w1', files') := remove_redundant w (redundant_gz files) files in
     if negb ok0 then (Err, w1') else
-    let '(ok, w2) := cleanup_loop w1' files' 0 n (n + m) in ((if ok then Ok tt else Err), w2)
+    let '(ok, w2) := cleanup_loop w1' files' 0 n (n + m) (Some p) in ((if ok then Ok tt else Err), w2)
   end.
 Proof.
   intros H Q. unfold klimd in H.
@@ -52,7 +54,7 @@ Theorem cleanup_numbers_d c w k n m closed lo mid :
   fts (c_spec c) = false -> sfx_ok (c_spec c) ->
   klimd k = Some (n, m) ->
   quiet w -> fs_wf (wfs w) -> kdir c (wfs w) closed lo mid ->
-  exists w', cleanup_impl c w k IFNum true = (Ok tt, w') /\ same_env w w' /\ fs_wf (wfs w')
+  exists w', cleanup_impl c w k IFNum (Some (rname c (length closed - 1))) = (Ok tt, w') /\ same_env w w' /\ fs_wf (wfs w')
     /\ kdir c (wfs w') closed (Nat.max lo (length closed - (n + m))) (Nat.max mid (length closed - n))
     /\ same_at (wfs w) (wfs w') (cname c)
     /\ (forall i, Nat.max mid (length closed - n) <= i < length closed -> same_at (wfs w) (wfs w') (rname c i)).
@@ -60,7 +62,7 @@ Proof.
   intros Hts Hsfx Hk Q W KD. set (L := length closed) in *. set (f := wfs w) in *.
   pose proof (kd_le _ _ _ _ _ KD) as Hle. fold L in Hle.
   pose proof KD as [_ Hnd Hp Ha Hon]. fold L in Hp, Hon.
-  rewrite (cleanup_impl_unfold_d c w k IFNum n m Hk Q), (fixed_of_fixed0 c w Hts).
+  rewrite (cleanup_impl_unfold_d c w k IFNum n m (rname c (L - 1)) Hk Q), (fixed_of_fixed0 c w Hts).
   fold f. rewrite (list_log_gz_numbers c f (woff w) lo mid L Hsfx (kdir_shape _ _ _ _ _ KD)).
   rewrite (listing_no_redundant c lo mid L Hsfx Hle). cbn [remove_redundant negb].
   set (files := listing c lo mid L).
@@ -80,6 +82,15 @@ Proof.
                  mid <= L - 1 - k /\ x = rname c (L - 1 - k)).
   { intros k0 x Hk0 He. destruct (Pos _ _ Hk0) as [Hk1 ->]. rewrite entry_ext in He by exact Hsfx.
     destruct (Nat.leb_spec mid (L - 1 - k0)); [|discriminate]. split; [assumption | apply entry_plain; assumption]. }
+  (* the file being written is at position 0 of the listing, if it is listed at all: skipping it changes nothing *)
+  assert (Ecur : cleanup_loop w files 0 n (n + m) (Some (rname c (L - 1))) = cleanup_loop w files 0 n (n + m) None).
+  { apply cleanup_loop_cur_kept. intros k0 Hk0. cbn [Nat.add]. destruct (Pos _ _ Hk0) as [Hk1 Ee].
+    assert (k0 = 0).
+    { unfold entry in Ee. destruct (mid <=? L - 1 - k0).
+      - apply rname_inj in Ee. lia.
+      - exfalso. exact (gname_not_rname _ _ _ Hsfx (eq_sym Ee)). }
+    subst k0. apply act_keep. pose proof (klimd_pos _ _ _ Hk). split; [lia | left; lia]. }
+  rewrite Ecur.
   destruct (cleanup_loop_spec w files 0 n (n + m) Q W (listing_nodup c lo mid L Hsfx Hle)) as (w' & E & S & W' & O & Fr).
   { intros k0 x Hk0 _. destruct (Pos _ _ Hk0) as [Hk1 ->]. apply Ex. lia. }
   { intros k0 x Hk0 _ He Hin. destruct (Zone _ _ Hk0 He) as [Hm ->]. fold (gname c (L - 1 - k0)) in Hin.
@@ -96,7 +107,7 @@ Proof.
              /\ (n <= L - 1 - i < n + m -> ext_is (entry c mid i) gz_sfx = false -> archived f f' (entry c mid i))).
   { intros i Hi. apply (O (L - 1 - i)). apply listing_nth_of; assumption. }
   assert (NDf' : nodup_names f').
-  { unfold f'. replace w' with (snd (cleanup_loop w files 0 n (n + m))) by (rewrite E; reflexivity).
+  { unfold f'. replace w' with (snd (cleanup_loop w files 0 n (n + m) None)) by (rewrite E; reflexivity).
     apply cleanup_loop_nd. exact Hnd. }
   set (made := map gz_name (filter not_gz (zone_part n (n + m) files))).
   assert (Made : forall x, In x made <-> exists i, mid <= i < L /\ n <= L - 1 - i < n + m /\ x = gname c i).
